@@ -329,3 +329,65 @@ def compress_family(tier):
         os.remove(f)
     cache_put(key, res)
     return res
+
+
+# ---------------------------------------------------------------------------------------------
+# proxy metadata family (C05)
+# ---------------------------------------------------------------------------------------------
+def meta_family(tier):
+    sd = seed()
+    key = "meta_%s_%s_%d" % (tree_hash(), tier, sd)
+    cached = cache_get(key)
+    if cached:
+        log("meta family: cache hit")
+        return cached
+    t0 = time.time()
+    build_harness()
+    mc = tlc_model_check("proxymeta", "ProxyMeta_MC.tla", "ProxyMeta_MC.cfg", workers=8, timeout=900, xmx="4g", extra="")
+    d = fresh_dir(os.path.join(WORK, "meta_" + tier))
+    parts = 6 if tier == "quick" else 12
+    cmds, files = [], []
+    for p in range(parts):
+        f = os.path.join(d, "seq_%02d.ndjson" % p)
+        cmds.append("%s meta-cases --out %s --seed %d --count %d --len 10" % (UVERIF, f, sd * 67 + p, 150 if tier == "quick" else 3000))
+        files.append(f)
+        f = os.path.join(d, "conc_%02d.ndjson" % p)
+        cmds.append("%s meta-cases --concurrent --out %s --seed %d --count %d" % (UVERIF, f, sd * 71 + p, 60 if tier == "quick" else 1500))
+        files.append(f)
+    rc, out = _run_cmds(cmds)
+    if rc != 0:
+        raise ToolError("meta rig failed: " + out[-2000:])
+    verdicts = validate_shards("ProxyMeta_Trace.tla", "ProxyMeta_Trace.cfg", files, jobs=14, timeout=3000)
+    viols, cases = [], 0
+    for v in verdicts:
+        cases += v["n"]
+        if not v["consumed"]:
+            raise ToolError("ProxyMeta_Trace did not consume %s\n%s" % (v["shard"], v.get("tlc_tail", "")))
+        lines = None
+        for x in v["viol"]:
+            if lines is None:
+                lines = open(v["shard"]).read().splitlines()
+            e = json.loads(lines[x["line"] - 1])
+            viols.append({"mon": x["mon"], "case": e, "cls": e["kind"]})
+    kinds, samples, nontrivial = {}, [], 0
+    scheds = set()
+    for f in files:
+        with open(f) as fh:
+            for line in fh:
+                e = json.loads(line)
+                kinds[e["kind"]] = kinds.get(e["kind"], 0) + 1
+                if e["kind"] == "deliver" and (e["reply"] != "OK" or e["msg"]["force"]):
+                    nontrivial += 1
+                if e["kind"] == "concurrent":
+                    sig = ",".join(e["schedule"])
+                    if sig not in scheds:
+                        scheds.add(sig)
+                        nontrivial += 1
+                    if len(samples) < 2:
+                        samples.append(e)
+    res = {"tier": tier, "seed": sd, "wall_s": time.time() - t0, "cases": cases, "kinds": kinds, "nontrivial": nontrivial,
+           "violations": viols[:300], "violation_count": len(viols), "samples": samples, "mc": mc}
+    for f in files:
+        os.remove(f)
+    cache_put(key, res)
+    return res
